@@ -54,6 +54,19 @@ def run(tier):
     core.run_harness(['kv-random', tr2, '2500' if thorough else '300', '30', 'adversarial'], timeout=3000)
     kv.judge(out, PID, w, tr2, 'random adversarial history', MINE, matcher, kinds, None)
     out.sample(dict(kind='recorded real operation', event=json.loads(open(tr2).readlines()[12])))
+    out.stage('D sessions working at the same time on one filesystem directory')
+    tr3 = os.path.join(d, 'conc.ndjson')
+    core.run_harness(['kv-conc', tr3, '8', '60' if thorough else '30', '12' if thorough else '3'], timeout=3000)
+    open(os.path.join(w, 'kc.cfg'), 'w').write(kv.trace_cfg(['C11_ConcOwnData', 'C11_ConcWriteAccepted']))
+    viol, st = core.validate_trace('KvTrace', 'kc.cfg', tr3, workdir=w, chunk=4000, par=core.NCPU)
+    out.cov['evaluations'] += st['events']
+    out.cov['traces_validated_against_impl'] += 1
+    for inv, idx, ev in viol:
+        out.violation('%s violated by sessions sharing a filesystem directory: %s' % (inv, json.dumps(ev)[:400]),
+                      dict(property=PID, kind='kv-conc', invariant=inv, event=ev, note='concurrent schedule: re-run the check to reproduce'))
+    for line in open(tr3):
+        ev = json.loads(line)
+        kinds.add(('conc', ev['op'], ev['res'], ev['type'], ev['want'] == ''))
     out.cov['distinct_nontrivial'] = len(kinds)
     out.cov['rule'] = ('all pairs of (type, session, key) with strings up to length 2 over an adversarial alphabet checked for storage-key collisions by TLC, each collision '
                        'replayed on mem / fs / fsbin / pg; random histories over separators, type-prefix characters, language-like suffixes, empty session, binary bytes, path elements')
@@ -61,6 +74,20 @@ def run(tier):
 
 
 def replay(path):
+    case = json.load(open(path))
+    if case.get('kind') == 'kv-conc':
+        # a concurrent schedule cannot be replayed step by step: the same driver is run again (several rounds)
+        d = core.scratch('verif-c11r-')
+        tr = os.path.join(d, 'conc.ndjson')
+        core.run_harness(['kv-conc', tr, '8', '40', '6'], timeout=3000)
+        w = core.spec_copy({'kc.cfg': kv.trace_cfg(['C11_ConcOwnData', 'C11_ConcWriteAccepted'])})
+        viol, _ = core.validate_trace('KvTrace', 'kc.cfg', tr, workdir=w)
+        if viol:
+            log('VIOLATION property=%s replay=%s' % (PID, path))
+            log('  %s' % viol[0][0])
+            return 1
+        log('replay: property holds on the re-run')
+        return 0
     return kv.replay(PID, path, MINE)
 
 
